@@ -192,3 +192,14 @@ def _b(x):
 def strong_refs(data):
     """oids of ordinary (strong, same-database) references of a record, in pickling order"""
     return [r.oid for r in decode_record(data)[2] if r.fmt in ('tuple', 'oid')]
+
+
+class ArgsCell(persistent.Persistent):
+    """class with constructor arguments: references to it are stored as bare oids"""
+
+    def __init__(self, payload=None):
+        self.payload = payload
+        self.refs = {}
+
+    def __getnewargs__(self):
+        return ()
